@@ -80,6 +80,29 @@ def bridge_analyze(exe, wss, cmd="analyze"):
     return _run_lines(exe, cmd, lines)
 
 
+def core_via_bridge(exe, wss):
+    """DROP-IN replacement of scopelib.core(bindir, wss): the CoreAst serialisation of each workspace computed by
+    the Coq bridge (model parser + generated accessor table + modelled include resolution) instead of
+    harness/src/bin/coreast.rs.  Objects have the keys scopelib.model / scopelib.correspond read:
+    "files" (paths, position = file number), "ast" ("(ws ..)" | None), "noncore" (reason | None),
+    "parse_errors" {path: [[lo, hi, msg], ..]} (+ "lens", "shape_ok", "noncore_file").
+    The paths are the workspace's own spelling when it has one that is equal up to '.' / empty components."""
+    out = []
+    for w, a in zip(wss, bridge_analyze(exe, wss, cmd="corews")):
+        if a.get("error"):
+            out.append({"panic": a["error"]})
+            continue
+        spell = {norm_path(p): p for p in w["files"]}
+        files = [spell.get(f, f) for f in a["files"]]
+        o = dict(a)
+        o["files"] = files
+        o["parse_errors"] = {spell.get(f, f): v for f, v in a["parse_errors"].items()}
+        if a.get("noncore") is not None:
+            o["noncore"] = "%s: %s" % (files[a["noncore_file"]], a["noncore"])
+        out.append(o)
+    return out
+
+
 def split_files(ws_sexp):
     """'(ws (file ..) (file ..))' -> ['(file ..)', ...]"""
     assert ws_sexp.startswith("(ws ") and ws_sexp.endswith(")"), ws_sexp[:40]
@@ -124,6 +147,8 @@ def compare_core(ws, cobj, aobj):
         pm = [tuple(e) for e in aobj["parse_errors"].get(q, [])]
         if pi != pm:
             bad.append("parse errors of %s: implementation %r, model %r" % (p, pi[:3], pm[:3]))
+    if not aobj.get("shape_ok", False):
+        bad.append("ident_shape fails: an Identifier node of a model tree does not start with an Id token")
     ca, ma = cobj.get("ast"), aobj.get("ast")
     cn, mn = cobj.get("noncore"), aobj.get("noncore")
     if mn == NO_ARM:
@@ -132,8 +157,8 @@ def compare_core(ws, cobj, aobj):
     elif mn is not None:
         if cn is None:
             bad.append("model noncore (%s), coreast Core" % mn)
-        elif not cn.endswith(": " + mn):
-            bad.append("noncore reason: coreast %r, model %r" % (cn, mn))
+        elif cn != "%s: %s" % (cobj["files"][aobj["noncore_file"]], mn):
+            bad.append("noncore reason: coreast %r, model %r in file %r" % (cn, mn, aobj["noncore_file"]))
     else:
         if cn is not None:
             bad.append("coreast noncore (%s), model Core" % cn)
